@@ -52,8 +52,8 @@ def strip_strings(text):
     return re.sub(r'"(?:[^"\\]|\\.)*"', '""', text)
 
 
-def _fn(name, params, ret, lines):
-    head = "fn %s(%s)%s" % (name, params, (" -> " + ret) if ret else "")
+def _fn(name, params, ret, lines, extern=False):
+    head = "%sfn %s(%s)%s" % ("extern " if extern else "", name, params, (" -> " + ret) if ret else "")
     body = head + "\n{\n" + "".join("\t" + l + "\n" for l in lines) + "}\n"
     return body, head
 
@@ -183,6 +183,9 @@ def generate(rng, prefix="", n_funcs=None, with_main=True, rich=True):
         kind = rng.choice(kinds)
         name = "%sf%d" % (px, i)
         do_print = rich and rng.random() < 0.45
+        # `extern` selects the C calling convention; only primitives and
+        # pointers may appear in such a signature
+        ext = rng.random() < 0.25
         if kind == "arith":
             terms = ["a * %d" % rng.randint(2, 7), "b"]
             if rng.random() < 0.7:
@@ -196,7 +199,7 @@ def generate(rng, prefix="", n_funcs=None, with_main=True, rich=True):
             if do_print:
                 lines.append('print!("%s ", r, "\\n");' % tag())
             lines.append("return: r")
-            body, head = _fn(name, "a: i32, b: i32", "i32", lines)
+            body, head = _fn(name, "a: i32, b: i32", "i32", lines, ext)
             it = P.add(Item(name, "fn", body, head, ("ii_i",)))
             ii_funcs.append(name)
         elif kind == "sum":
@@ -211,7 +214,7 @@ def generate(rng, prefix="", n_funcs=None, with_main=True, rich=True):
         elif kind == "ptr":
             k = rng.choice(sorted(kvals))
             lines = ["p = (p + d + %s) %% %d;" % (k, MOD)]
-            body, head = _fn(name, "p: &i32, d: i32", None, lines)
+            body, head = _fn(name, "p: &i32, d: i32", None, lines, ext)
             it = P.add(Item(name, "fn", body, head, ("ptr_v",)))
         elif kind == "sget":
             s = rng.choice(sorted(structs))
@@ -264,7 +267,7 @@ def generate(rng, prefix="", n_funcs=None, with_main=True, rich=True):
             it = P.add(Item(name, "fn", body, head, ("flag",)))
         elif kind == "printv" and rich:
             lines = ['print!("%s v=", v, " ", %s, "\\n");' % (tag(), rng.choice(["true", "'x'", "7u8", "12usize"]))]
-            body, head = _fn(name, "v: i32", None, lines)
+            body, head = _fn(name, "v: i32", None, lines, ext)
             it = P.add(Item(name, "fn", body, head, ("print_v",)))
         elif kind == "eprint" and rich:
             lines = ['eprint!("%s e=", v, "\\n");' % tag()]
@@ -278,7 +281,7 @@ def generate(rng, prefix="", n_funcs=None, with_main=True, rich=True):
         elif kind == "guard" and rich:
             which = rng.choice(['panic!("%s unreachable\\n");' % tag(), "abort!();"])
             lines = ["if v > %d" % (MOD * 10), "{", "\t" + which, "}", "return: v + 1"]
-            body, head = _fn(name, "v: i32", "i32", lines)
+            body, head = _fn(name, "v: i32", "i32", lines, ext)
             it = P.add(Item(name, "fn", body, head, ("i_i",)))
         else:
             continue
@@ -314,9 +317,12 @@ def generate(rng, prefix="", n_funcs=None, with_main=True, rich=True):
                 lines.append("var %s = %s;" % (v, word_literal(w)))
             return wvars[w]
 
-        calls = list(funcs)
+        called_by_others = set()
+        for it in funcs:
+            called_by_others |= {w for w in IDENT.findall(strip_strings(it.body)) if w != it.name}
+        calls = [it for it in funcs if it.name not in called_by_others or rng.random() < 0.5]
         rng.shuffle(calls)
-        extra = [rng.choice(funcs) for _ in range(rng.randint(0, 4))]
+        extra = [rng.choice(calls) for _ in range(rng.randint(0, 4))] if calls else []
         for it in calls + extra:
             sig = it.sig
             f = it.name
@@ -370,6 +376,10 @@ LAYOUTS = [
     ["main.pn", "lib/m1.pn", "lib/m2.pn", "lib/sub/m3.pn"],
     ["src/main.pn", "src/m1.pn", "src/util/m2.pn", "other/m3.pn"],
     ["app.pn", "a/m1.pn", "b/m2.pn", "a/deep/er/m3.pn"],
+    # the same base name in two directories: `import "util.pn"` means a
+    # different file for includers in different directories
+    ["app/main.pn", "lib/util.pn", "app/util.pn", "lib/helper.pn"],
+    ["one/main.pn", "two/part.pn", "one/part.pn", "two/sub/part.pn"],
 ]
 
 
@@ -454,7 +464,10 @@ class Split:
                 d = os.path.dirname(self.files[m])
                 if d and root.startswith(d + "/"):
                     rel = root[len(d) + 1:]
-                if rel and rng.random() < 0.6:
+                if rel in self.files:
+                    rel = None      # a root-relative key of that name wins in penne
+                dup = rel and sum(1 for f in self.files if os.path.basename(f) == os.path.basename(root)) > 1
+                if rel and rng.random() < (0.9 if dup else 0.6):
                     self.import_style[(m, t)] = rel
                 else:
                     self.import_style[(m, t)] = root
@@ -498,6 +511,8 @@ def random_split(program, rng, k=None):
     names = [it.name for it in program.items]
     k = min(k, len(names))
     layout = rng.choice(LAYOUTS)
+    if k == 4 and rng.random() < 0.4:
+        layout = LAYOUTS[4]     # two directories with a `util.pn` each
     files = layout[:k]
     assign = {}
     # every module gets at least one item
@@ -516,6 +531,14 @@ def random_split(program, rng, k=None):
                 d = rng.choice(cands)
                 if assign[d] == assign[it.name]:
                     assign[d] = (assign[d] + 1 + rng.randrange(k - 1)) % k if k > 1 else 0
+    users = {}
+    for it in program.items:
+        for d in it.deps:
+            users.setdefault(d, set()).add(it.name)
+    for it in program.items:
+        if it.kind == "fn" and len(users.get(it.name, ())) == 1 and rng.random() < 0.6:
+            (u,) = users[it.name]
+            assign[it.name] = assign[u]
     # make sure no module went empty through the bias moves
     for m in range(k):
         if m not in assign.values():
